@@ -67,7 +67,10 @@ func optionsFor(p program, names []string, thorough bool) []optSpec {
 	if !p.HasKey {
 		opts = append(opts, optNoParams)
 	}
-	opts = append(opts, optSpec{Name: "exclude=" + names[0], PreserveParams: true, Exclude: []string{names[0]}})
+	if len(p.Defined) > 0 || thorough {
+		// excluding a name matters for global definitions; pure expressions get it in the thorough tier
+		opts = append(opts, optSpec{Name: "exclude=" + names[0], PreserveParams: true, Exclude: []string{names[0]}})
+	}
 	if thorough && p.HasExp && !p.HasKey {
 		opts = append(opts, optBoth)
 	}
@@ -247,17 +250,23 @@ func report(r *core.Run, k kase, first []finding) {
 			return
 		}
 	}
-	tags := k.Sig
+	// generated-name family: a failed check that passes once the x<N> name of
+	// the source is replaced by a neutral name is a collision with the
+	// minifier's own naming scheme; anything else keeps its ordinary class
+	altFails := map[string]bool{}
 	if k.AltFrom != "" {
-		// the same program with a neutral name in place of the x<N> name
-		if len(checkCase(neutralised(k))) == 0 {
-			tags = "generated-name-collision"
+		for _, f := range checkCase(neutralised(k)) {
+			altFails[f.Check] = true
 		}
 	}
 	for _, f := range first {
 		if f.Check == "harness" {
 			r.Violate("c17", "harness-error", k, f.Expected, f.Got, "")
 			continue
+		}
+		tags := k.Sig
+		if k.AltFrom != "" && !altFails[f.Check] {
+			tags = "generated-name-collision"
 		}
 		r.Violate("c17", classOf(f, k.Opt, tags), k, f.Expected, f.Got, "")
 	}
@@ -361,7 +370,7 @@ func run(r *core.Run) {
 	}
 	preMu.Unlock()
 	r.Extra("failing_cases_by_preliminary_class", fc)
-	r.Bound("options", "default; --rename-exports (sessions with an export form); --preserve-params=false (sessions without &key / keyword arguments); --exclude <first pool name>; thorough: both flags together")
+	r.Bound("options", "default; --rename-exports (sessions with an export form); --preserve-params=false (sessions without &key / keyword arguments); --exclude <first pool name> (sessions with a top-level definition; thorough: all); thorough: both flags together")
 	r.Bound("run_limits", "max-steps 20000, max-tail-iterations 500, physical stack 200 (same for original and minified)")
 	r.Rule("every program of the grammar up to the node bound, per family, de-duplicated by text across families; " +
 		"states = distinct programs, transitions = (program, option) checks, evaluations = session executions in fresh runtimes; " +
